@@ -290,6 +290,20 @@ pub fn run(cfg: &RunCfg, rep: &mut Report) {
             let mut g = Gen::new(&mut rng, gc.clone());
             g.gen(want, budget)
         };
+        // one case in ten starts from nested andor / and_n shapes (wrapper sugar inside sugar)
+        let a = if i % 10 == 3 && want == Base::B {
+            let form = if cx == Cx::Tap { KeyForm::XOnly } else { KeyForm::Compressed };
+            let k = |n: usize| Box::new(Frag::Check(Box::new(Frag::PkK(KeyRef { id: n, form }))));
+            let z = || Box::new(Frag::False);
+            match rng.below(4) {
+                0 => Frag::AndOr(k(0), Box::new(Frag::AndOr(k(1), k(2), z())), k(3)),
+                1 => Frag::AndOr(k(0), Box::new(Frag::AndOr(k(1), k(2), k(3))), z()),
+                2 => Frag::AndOr(Box::new(Frag::AndOr(k(0), k(1), z())), k(2), k(3)),
+                _ => Frag::AndOr(Box::new(Frag::AndOr(k(0), k(1), k(2))), k(3), z()),
+            }
+        } else {
+            a
+        };
         let fresh = KeyRef { id: 9, form: KeyForm::Compressed };
         let mut frags: Vec<(Frag, String)> = vec![(a.clone(), "original".into()), (a.clone(), "identical copy".into())];
         for _ in 0..3 {
@@ -323,6 +337,7 @@ pub fn run(cfg: &RunCfg, rep: &mut Report) {
                 Cx::Segwitv0 => vec![Box::new(|m| format!("wsh({})", m)), Box::new(|m| format!("sh(wsh({}))", m))],
                 Cx::Legacy => vec![Box::new(|m| format!("sh({})", m))],
                 Cx::Tap => vec![
+                    Box::new(|_| "tr(KI)".to_string()),
                     Box::new(|m| format!("tr(KI,{})", m)),
                     Box::new(|m| format!("tr(KI,{{{},pk(KX)}})", m)),
                     Box::new(|m| format!("tr(KI,{{pk(KX),{}}})", m)),
